@@ -645,6 +645,15 @@ fn gen_writes(rng: &mut Rng, g: &Graph, uid: &mut i64, out: &mut Vec<Stmt>) {
         };
         out.push(s);
     }
+    // update statements of the C12 generator (every clause form, prefixes, parameters, nulls)
+    for _ in 0..6 {
+        let (fam, text, params) = super::updates_gen::gen_update_statement(rng, g, uid);
+        out.push(Stmt { family: format!("update:{fam}"), text, params, updates: Some(true) });
+    }
+    let mut fresh = || {
+        *uid += 1;
+        *uid
+    };
     // statements that fail at run time after earlier rows succeeded
     let u = fresh();
     let failing = [
@@ -1256,25 +1265,25 @@ pub fn main(args: &Args) -> Report {
     );
     rep.assume("what a statement contains (update or not) is known from its generation, not from parsing; mutated statements are judged only for equal outcome");
     rep.assume("row order is not compared (C20 owns ordering; the C API adds no ordering of its own beyond the JSON array)");
-    let n = if args.thorough() { 1600 } else { 160 };
-    let deadline = Instant::now() + Duration::from_secs(args.budget_s(90, 900));
+    let n = if args.thorough() { 16_000 } else { 500 };
+    let deadline = Instant::now() + Duration::from_secs(args.budget_s(150, 1500));
     let dir = ScratchDir::new("c34");
     let (out, done) = par_cases(n, threads(), Some(deadline), |k| run_case(args.seed, k, &dir));
     rep.out = out;
     rep.out.count("cases_planned", n as u64);
     rep.out.count("cases_done", done as u64);
     let t = args.thorough();
-    rep.floor("statements", rep.out.evaluations, if t { 20_000 } else { 3_000 });
-    rep.floor("reads returning rows on both sides", rep.counter("reads_returning_rows_on_both_sides"), if t { 8_000 } else { 1_000 });
-    rep.floor("statement-API reads compared", rep.counter("statement_api_reads_compared"), if t { 8_000 } else { 1_000 });
-    rep.floor("writes succeeding on both sides", rep.counter("writes_succeeding_on_both_sides"), if t { 4_000 } else { 500 });
-    rep.floor("writes offered to the read entry point", rep.counter("writes_offered_to_read_entry_point"), if t { 4_000 } else { 500 });
-    rep.floor("nested writes offered to the read entry point", rep.counter("nested_writes_offered_to_read_entry_point"), if t { 500 } else { 80 });
-    rep.floor("reads offered to the write entry point", rep.counter("reads_offered_to_write_entry_point"), if t { 4_000 } else { 500 });
-    rep.floor("error categories compared", rep.counter("error_categories_compared"), if t { 3_000 } else { 400 });
-    rep.floor("writes in explicit transactions", rep.counter("writes_in_explicit_transactions"), if t { 1_000 } else { 150 });
+    rep.floor("statements", rep.out.evaluations, if t { 250000 } else { 25_000 });
+    rep.floor("reads returning rows on both sides", rep.counter("reads_returning_rows_on_both_sides"), if t { 100000 } else { 10_000 });
+    rep.floor("statement-API reads compared", rep.counter("statement_api_reads_compared"), if t { 100000 } else { 10_000 });
+    rep.floor("writes succeeding on both sides", rep.counter("writes_succeeding_on_both_sides"), if t { 40000 } else { 4_000 });
+    rep.floor("writes offered to the read entry point", rep.counter("writes_offered_to_read_entry_point"), if t { 40000 } else { 4_000 });
+    rep.floor("nested writes offered to the read entry point", rep.counter("nested_writes_offered_to_read_entry_point"), if t { 5000 } else { 500 });
+    rep.floor("reads offered to the write entry point", rep.counter("reads_offered_to_write_entry_point"), if t { 40000 } else { 4_000 });
+    rep.floor("error categories compared", rep.counter("error_categories_compared"), if t { 80000 } else { 8_000 });
+    rep.floor("writes in explicit transactions", rep.counter("writes_in_explicit_transactions"), if t { 15000 } else { 1_500 });
     for kind in ["node", "relationship", "path", "map", "list", "float", "int", "string", "bool", "null", "nan", "inf"] {
-        rep.floor(&format!("values of kind {kind} compared"), rep.counter(&format!("value_kind.{kind}")), if t { 500 } else { 60 });
+        rep.floor(&format!("values of kind {kind} compared"), rep.counter(&format!("value_kind.{kind}")), if t { 2000 } else { 200 });
     }
     rep
 }
